@@ -547,7 +547,7 @@ def task_iterative(pr, repo, presence_only=False):
         s1, s2 = o1.attrs['determinants']['sidechain'], o2.attrs['determinants']['sidechain']
         ok = len(c) == 1 and len(s1) == 1 and len(s2) == 1
         ctx.oblige('iterative acid pair: one Coulomb term +coulomb (destabilising), side-chain terms +-hbond, |.| within the inputs',
-                   And(ok, c[0][1] == cv, s1[0][1] == -1 * s2[0][1], Or(s1[0][1] == hb, s1[0][1] == -1 * hb)))
+                   And(c[0][1] == cv, s1[0][1] == -1 * s2[0][1], Or(s1[0][1] == hb, s1[0][1] == -1 * hb)) if ok else False)
     if not presence_only:
         pr.explore(ex, t_acid, 'add_iterative_acid_pair')
 
@@ -558,7 +558,7 @@ def task_iterative(pr, repo, presence_only=False):
         s1, s2 = o1.attrs['determinants']['sidechain'], o2.attrs['determinants']['sidechain']
         ok = len(c) == 1 and len(s1) == 1 and len(s2) == 1
         ctx.oblige('iterative base pair: one Coulomb term -coulomb (like charges lower a base), side-chain terms +-hbond',
-                   And(ok, c[0][1] == -1 * cv, s1[0][1] == -1 * s2[0][1], Or(s1[0][1] == hb, s1[0][1] == -1 * hb)))
+                   And(c[0][1] == -1 * cv, s1[0][1] == -1 * s2[0][1], Or(s1[0][1] == hb, s1[0][1] == -1 * hb)) if ok else False)
     if not presence_only:
         pr.explore(ex, t_base, 'add_iterative_base_pair')
 
